@@ -22,9 +22,40 @@ def run(repo, chk):
     refcheck.run_all(R, repo, chk, 'RECUR', 'ocr_ref.py', {'py_run_ocr': 'the engine decodes greedily exactly the network output it returns (all frames)'}, only=('py_run_ocr',))
     R.run('ORDER', order, repo, chk)
     R.run('OFFSET', offset, repo, Soft(chk))
+    R.run('WRAP', wrap, repo, chk)
     chk.expect('RECUR', 6)
     chk.expect('ORDER', 3)
     chk.expect('OFFSET', 7)
+
+
+def cyclic_shifts(node):
+    out = []
+    for c in ast.walk(node):
+        if isinstance(c, ast.Call):
+            nm = call_name(c) or ''
+            if nm in ('torch.roll', 'np.roll', 'numpy.roll') or (isinstance(c.func, ast.Attribute) and c.func.attr == 'roll'):
+                out.append(c)
+    return out
+
+
+def wrap(repo, chk):
+    """WRAP: "a frame that repeats its predecessor starts no new symbol" needs a predecessor for the first frame that is a
+    blank. A cyclic shift (torch.roll / np.roll) of the arg-max path hands the first frame the LAST frame of the line (without
+    `dims`, of the previous line of the batch) as predecessor: a leading symbol equal to it is dropped. The shift is accepted
+    only if position 0 of the comparison is overwritten afterwards."""
+    from ..lib import need_selfcheck
+    fi = repo.func('pero_ocr.ocr_engine.pytorch_ocr_engine:greedy_decode_ctc')
+    rolls = cyclic_shifts(fi.node)
+    fixes = [s_ for s_ in ast.walk(fi.node) if isinstance(s_, ast.Assign) and any(
+        isinstance(t, ast.Subscript) and (is_const(t.slice, 0) or (isinstance(t.slice, ast.Tuple) and t.slice.elts and is_const(t.slice.elts[-1], 0)))
+        for t in s_.targets) and any(r.lineno < s_.lineno for r in rolls)]
+    for r in rolls:
+        chk.ob('WRAP', fi, r, 'the first frame of a line is compared with a blank predecessor, not with a wrapped-around frame', bool(fixes),
+               '%s shifts the path cyclically: frame 0 is compared with the last frame; no later store into position 0 repairs it' % ' '.join(src(r).split()),
+               construct='cyclic shift in greedy_decode_ctc', robust=True)
+    chk.ob('WRAP', fi, fi.node, 'no cyclic shift of the arg-max path stands in for the prepended blank frame', not rolls or bool(fixes), construct='cyclic shifts', robust=True)
+    sample = ast.parse("def f(best):\n    mask = best == torch.roll(best, shifts=1, dims=1)\n    best[mask] = 0\n    return np.roll(best, 1)\n")
+    need_selfcheck(len(cyclic_shifts(sample)) == 2, 'WRAP recogniser no longer fires on its embedded positive example')
 
 
 def order(repo, chk):
